@@ -62,6 +62,10 @@ FreshOf(st) ==
 (* the objects now stored, as identity markers *)
 StoredObjs(st) == UNION {{st.marks[i][1], st.marks[i][2]} : i \in DOMAIN st.marks}
 
+SumEs(rows) == LET RECURSIVE S(_)
+                    S(i) == IF i > Len(rows) THEN 0 ELSE rows[i][4] + S(i + 1)
+                IN S(1)
+
 SumSizes(fwd) == LET RECURSIVE S(_)
                      S(i) == IF i > Len(fwd) THEN 0 ELSE fwd[i][2] + S(i + 1)
                  IN S(1)
@@ -259,6 +263,10 @@ CallBad(pre, a, e, g, stl, lst) ==
     \cup {<<"C19", "C19_Step">>  : z \in IF C19_Step(pre, a, x) THEN {} ELSE {1}}
     \cup {<<"C20", "C20_Step">>  : z \in IF e.counts.hash <= HashBound(pre, a, x) THEN {} ELSE {1}}
     \cup {<<"C01", "C01_Bound">> : z \in IF C01_Bound(post) THEN {} ELSE {1}}
+    \* the same bound on what is really held (entry_size of every stored pair), unless a
+    \* crashed mutate legitimately left a recorded size behind (C16 speaks of recorded sizes)
+    \cup {<<"C01", "held_bound">> : z \in IF stl = {} /\ post.alive /\ ~IsBig(post.max)
+                                             /\ SumEs(e.st.ord) > post.max THEN {1} ELSE {}}
     \cup {<<"C02", "C02_Exact">> : z \in IF C02_Exact(post, stl) THEN {} ELSE {1}}
     \cup {<<"C02", "entry_size">> : z \in IF \A i \in DOMAIN e.st.ord :
                                               post.ord[i].k \in stl \/ e.st.ord[i][4] = post.ord[i].rec
@@ -301,9 +309,11 @@ CrashBad(pre, a, e, stl) ==
                                               ~(KeysOf(pre.ord) \ KeysOf(post.ord) \subseteq
                                                    (IF a.op = "retain" THEN callsBefore \ a.keep ELSE {}))
                                            THEN {1} ELSE {}}
-    \cup {<<"C16", "closure_order">> : z \in IF kind = "closure" /\
-                                               Rel(pre.ord, KeysOf(post.ord)) # KeySeq(post.ord)
-                                            THEN {1} ELSE {}}
+    \* retain / mutate never change the relative order of what remains - also when their
+    \* closure panics (C05 says never; C16 says nothing else is lost)
+    \cup {<<p, "closure_order">> : p \in IF kind = "closure" /\
+                                             Rel(pre.ord, KeysOf(post.ord)) # KeySeq(post.ord)
+                                          THEN {"C16", "C05"} ELSE {}}
     \* clone works through &self: even when it unwinds, the source must be untouched (C19)
     \cup {<<p, "clone_source">> : p \in IF a.op = "clone" /\ (post # pre \/ e.fp # e.pre_fp)
                                         THEN {"C16", "C19"} ELSE {}}
@@ -356,7 +366,7 @@ Retaint(bad, tn) ==
                       \* C01 speaks of every call that returns; C16 demands the bound only after
                       \* closure panics (facet closure_bound of the crash event itself)
                       THEN {pf}
-                 ELSE IF pf[2] \in {"sum_recorded", "clone_source"}
+                 ELSE IF pf[2] \in {"sum_recorded", "clone_source", "closure_order"}
                       \* C02 / C19 speak of every point / every &self call, C16 / C17 of the same facts
                       THEN {pf, <<towner, pf[2]>>}
                  ELSE {<<towner, pf[2]>>} : pf \in bad }
@@ -439,10 +449,38 @@ CloneStep(e) ==
        /\ taint' = taint /\ broken' = broken
        /\ nbad' = nbad + Cardinality(bad)
 
+(* d.clone_from(&c): the content of d becomes that of c (C14), c itself is only read (C19), *)
+(* everything d held before is dropped exactly once (C06).  How much capacity d ends up    *)
+(* with is left open: a specialised clone_from may keep d's own allocation.                *)
+CloneFromStep(e) ==
+    LET c == e.c  d == e.d  pre == cs[c]  post == PostOf(e.st)  dpost == PostOf(e.dst)  old == cs[d]
+        oldObjs == UNION {{<<"XK", old.ord[i].k * 100 + d>>, <<"XV", old.ord[i].k * 100 + d>>}
+                          : i \in DOMAIN old.ord}
+        bad == {<<"C14", "clone_state">> : z \in IF dpost.alive /\ dpost.ord = pre.ord /\ dpost.cur = pre.cur
+                                                   /\ dpost.max = pre.max /\ Cap(dpost) >= Len(dpost.ord)
+                                               THEN {} ELSE {1}}
+               \cup {<<"C01", "C01_Bound">> : z \in IF C01_Bound(dpost) THEN {} ELSE {1}}
+               \cup {<<"C14", "clone_marks">> : z \in IF \A i \in DOMAIN e.dst.marks :
+                         e.dst.marks[i] = <<<<"CK", e.dst.ord[i][1]>>, <<"CV", e.dst.ord[i][1]>>>>
+                         THEN {} ELSE {1}}
+               \cup {<<"C07", "WellFormed">> : z \in IF WellFormed(e.dst) /\ WellFormed(e.st) THEN {} ELSE {1}}
+               \cup {<<"C19", "source_changed">> : z \in IF post = pre /\ e.fp = e.pre_fp THEN {} ELSE {1}}
+               \cup {<<"C14", "frame">> : z \in IF \A i \in DOMAIN e.others : e.others[i][2] THEN {} ELSE {1}}
+               \cup {<<"C06", "clone_from_drops">> : z \in IF ToSet(e.dropped) = oldObjs /\ e.anom = <<>>
+                                                        THEN {} ELSE {1}}
+               \cup {<<"C20", "hashes">> : z \in IF e.counts.hash <= 2 + Len(pre.ord) THEN {} ELSE {1}}
+    IN /\ Report(l, Retaint(bad, taint))
+       /\ cs' = [cs EXCEPT ![c] = post, ![d] = dpost]
+       /\ last' = [last EXCEPT ![c] = Remember(e.st), ![d] = Remember(e.dst)]
+       /\ gh' = Fn(gh, d, [gh[c] EXCEPT !.peak = Max2(gh[c].peak, gh[d].peak), !.req = Max2(gh[c].req, gh[d].req)])
+       /\ stale' = Fn(stale, d, stale[c])
+       /\ taint' = taint /\ broken' = broken
+       /\ nbad' = nbad + Cardinality(bad)
+
 CallStep(e) ==
     LET c == e.c  pre == cs[c]  a == ArgOf(e)  post == PostOf(e.st)
         x == StepOf(pre, a, e, last[c])
-        specPanics == a.op # "clone" /\ \E o \in Apply(pre, a) : o.ret.tag = "panic"
+        specPanics == a.op \notin {"clone", "clone_from"} /\ \E o \in Apply(pre, a) : o.ret.tag = "panic"
         crashed == e.panic.kind # "none" /\ ~(e.panic.kind = "unexpected" /\ specPanics)
         forgot  == a.op \in IterKinds /\ a.fl /\ ~crashed
         bad0 == IF forgot THEN ForgetBad(pre, a, e) ELSE IF crashed
@@ -471,6 +509,7 @@ TraceNext ==
        ELSE IF e.a.op = "new" THEN NewStep(e)
        ELSE IF e.a.op = "drop" THEN DropStep(e)
        ELSE IF e.a.op = "clone" /\ e.panic.kind = "none" THEN CloneStep(e)
+       ELSE IF e.a.op = "clone_from" /\ e.panic.kind = "none" THEN CloneFromStep(e)
        ELSE CallStep(e)
 
 TraceSpec == TraceInit /\ [][TraceNext]_tvars
